@@ -502,6 +502,15 @@ def run(ctx):
     from .c04 import r4_connect
     for fam in SA:
         r4_connect(ctx, fam)
+    ctx.rule('C11.R2', 'a transport that ends leaves every namespace: a '
+             'failing disconnect handler of one namespace is contained '
+             'inside the loop, the mark is followed by the release on every '
+             'exit - a namespace that is skipped keeps the departed client '
+             'in its rooms and goes on delivering to it (shared rule)',
+             floor=6)
+    from .c11 import r2_exception_safe
+    for fam in SA:
+        r2_exception_safe(ctx, fam)
     ctx.assume('bidict keeps sid <-> transport id one-to-one (trusted)')
     ctx.assume('the exact recipient set over all membership histories is '
                'NOT decided')
